@@ -92,7 +92,13 @@ class Ctx:
 
 def ev_equiv(cx, u, a, fn):
     w = TM.ser(a)
-    oc, r = guarded(lambda: fn(a))
+    oc, r = guarded(lambda: fn(a), secs=cx.job.get("budget_s", 20))
+    if oc == "Timeout":
+        # a wall-clock budget is not an answer of the utility (Z3's aig tactic bit-blasts 64-bit divisions for
+        # many seconds): counted, not judged
+        oo = cx.out.stats["outcomes"]
+        oo["equiv:" + u + ":Timeout(skipped)"] = oo.get("equiv:" + u + ":Timeout(skipped)", 0) + 1
+        return None
     if oc == "ok" and not is_ast(r):
         oc, r = "NotAnAST", None
     rt = TM.ser(r) if oc == "ok" else DUMMY
